@@ -17,8 +17,20 @@ TRUST = common.BASE_TRUST + [
 ]
 
 
+GUARDS_TRUST = (
+    "translate/units/guards.py + translate/c2gallina.py: the handlers pre_thread_*, pre_thread, pre_affinity_*, pre_affinity, "
+    "model_ovni_event (ovni/event.c), cpu_migrate_thread (cpu.c), body_* (body.c), task_execute/pause/resume/end, create_body (task.c) "
+    "are rendered into coq/Gen/Guards_gen.v from clang's JSON AST on every run and proved equal to the hand model "
+    "(coq/Proofs/GuardsProofs.v); clang's AST and the Python printer are trusted; the primitives of coq/Emu/GuardsPre.v "
+    "(thread_set_state, thread_set_cpu, thread_unset_cpu, thread_migrate_cpu, cpu_add_thread, cpu_remove_thread, cpu_update, "
+    "loom_get_cpu, proc_find_thread, loom_find_thread, body_find, body_create, DL_PREPEND/DL_DELETE, field accessors) are "
+    "hand-written meanings of C code that is not translated, tied by the end-to-end runs only")
+
+
 def setup(chk, extra_units=()):
     chk.trusted_base = list(TRUST)
+    if "guards" in extra_units:
+        chk.trusted_base.append(GUARDS_TRUST)
     broken = common.translate(["tables"] + list(extra_units))
     if broken:
         chk.proof_broken = {"kind": "translator", "messages": broken}
